@@ -118,6 +118,7 @@ def run(chk, tier):
     it = symex.Interp(F, CmpPolicy())
     outs = it.run(eqb, [symex.U("a", "&" + CVT), symex.U("b", "&" + CVT)])
     handled = collections.defaultdict(set)
+    raw_eq = collections.defaultdict(set)
     for st, r in outs:
         a_, b_ = cell(st, "ta"), cell(st, "tb")
         rr = symex.render(r)
@@ -135,6 +136,7 @@ def run(chk, tier):
         else:
             cls = "other:" + rr[:40]
         handled[(a_, b_)].add(cls)
+        raw_eq[(a_, b_)].add(rr)
     variants = sorted(set(x for k_ in handled for x in k_) - {"other"})
     asym = []
     for x, y in itertools.permutations(variants, 2):
@@ -154,11 +156,22 @@ def run(chk, tier):
     else:
         chk.ok("R04.6", "eq|symmetric handling", {"pairs": len(handled)})
     for ty in ["Int", "UInt", "Float", "Bool", "String", "Bytes", "TimeStamp", "Duration", "Type"]:
-        got = handled.get((ty, ty), set())
-        if got == {"cmp"}:
+        got = raw_eq.get((ty, ty), set())
+        if len(got) == 1 and re.match(r"^CelValue::from_bool\((Eq|PartialEq::eq)\((ta\.%s\.0, tb\.%s\.0|tb\.%s\.0, ta\.%s\.0)\)\)$" % (ty, ty, ty, ty), next(iter(got))):
             chk.ok("R04.6", "eq|%s,%s" % (ty, ty))
         else:
             chk.bad("R04.6", "eq|%s,%s" % (ty, ty), "two %s values must be equal iff their payloads are: %s" % (ty, sorted(got)), "rscel/src/types/cel_value.rs")
+    plain = [v for v in variants if v not in ("Dyn", "Enum")]
+    for x, y in itertools.product(plain + ["other"], plain + ["other"]):
+        if x == y and x != "other":
+            continue
+        got = handled.get((x, y))
+        if got is None:
+            continue
+        if got - {"false", "failed operand"}:
+            chk.bad("R04.6", "eq|%s,%s" % (x, y), "values of different types (after widening) must compare unequal; (%s, %s) yields %s" % (x, y, sorted(raw_eq[(x, y)])[:2]), "rscel/src/types/cel_value.rs")
+        else:
+            chk.ok("R04.6", "eq|%s,%s" % (x, y), "false")
     if handled.get(("Null", "Null")) == {"true"}:
         chk.ok("R04.6", "eq|Null,Null")
     else:
